@@ -16,12 +16,26 @@ RULE = ("histories over {callback, errback, cancel, addCallback/addBoth of a cal
         "fires errback, raises} x the same five kinds for every inner Deferred. quick: EVERY history of length <= 3 over that "
         "full alphabet and of length <= 5 over the statement's bare alphabet {callback, errback, cancel, add, fire latest inner}, "
         "for each of the 5 outer canceller kinds, + 1500 random histories of length <= 40; thorough: lengths <= 4 / <= 7 "
-        "(length 8 for the canceller-less Deferred) + 40000 random; "
-        "distinct = (outer canceller kind, set of (operation kind, outer fired?/waiting?, outcome))")
+        "(length 8 for the canceller-less Deferred) + 40000 random. "
+        "Since the white-box mutation audit (harness/mutants/C03) the case language also has, each with its own bounded-exhaustive "
+        "slice in the quick tier and a share of the random histories: "
+        "(sub) the Deferreds are instances of a Deferred SUBCLASS (all / only the inner ones / only the outer one); "
+        "(forms) every way of handing over a failure: errback(exc), errback(Failure), errback() inside an except block, "
+        "callback(Failure); "
+        "(D+/D-) Deferred debugging switched on/off IN THE MIDDLE of a history (a Deferred created/fired in one mode, used in the other); "
+        "(nested, oracle-only) inner Deferreds that carry their own callbacks returning further Deferreds: chains of any depth, "
+        "cancel() forwarded through several fired-and-waiting Deferreds; "
+        "(re-entrant) callbacks that call callback()/errback()/cancel() on the Deferred whose callback chain is running "
+        "(model-compared against TwistedModel/Defer/Reenter.lean when the history has no inner Deferred, oracle-only otherwise). "
+        "distinct = (outer canceller kind, case-language features used, set of (operation kind, outer fired?/waiting?, outcome))")
 ASSUMES = [
-    "the only user callbacks are `lambda _: inner_i` (addCallback/addBoth); each inner Deferred is returned by exactly one callback and has no callbacks of its own",
+    "model-compared cases: the only user callbacks are `lambda _: inner_i` (addCallback/addBoth); each inner Deferred is returned by exactly one callback and has no callbacks of its own "
+    "(nested chains, and re-entrant callbacks in histories that also have inner Deferreds, are judged by the oracle only: the chaining model has one outer Deferred "
+    "and leaf inner Deferreds, the re-entrancy model `Reenter` has ONE Deferred whose callbacks are the re-entrant ones and return their argument)",
+    "the Lean model abstracts the FORM of a failure hand-over (errback(exc) / errback(Failure) / errback() / callback(Failure) are all `errback e`), the class of the Deferreds, and the debugging mode (D+/D- are not operations of the model): the harness maps them away in model_line, so the tie checks that they make no observable difference",
     "cancellers are one of: absent, returns, fires callback(v), fires errback(e), raises an Exception subclass (not BaseException such as KeyboardInterrupt)",
-    "no pause()/unpause() by the user, Deferred.debug off, no re-entrant operations from inside callbacks",
+    "no pause()/unpause() by the user; re-entrant operations address the Deferred whose callback is running (not another one); values are ints (never None / a Deferred)",
+    "a re-entrant callback()/errback() issued from a callback that runs INSIDE the cancel() of a canceller-less Deferred (on that Deferred) may count as the one ignored late result or be refused: the statement does not say which, the oracle accepts both (consistently)",
 ]
 TRUSTED = ["the probe callback (first addBoth on every Deferred, returns its argument) used to observe delivered results"]
 MANIFEST = {
@@ -32,10 +46,18 @@ MANIFEST = {
             "canceller does not raise; cancel() on a fired Deferred is exactly cancel() on the (unfired) Deferred it waits on, "
             "otherwise a no-op; operations on one Deferred never fire/cancel another. For a RAISING canceller the code violates "
             "the statement (counterexample theorem + replayed witness; known finding); the full statement is proved for the "
-            "candidate repair. Model tied to defer.py by differential runs (per-operation outcome + "
-            "called/result/canceller-count/delivered of every Deferred) incl. exhaustive short histories.",
+            "candidate repair. RE-ENTRANCY (second model, one Deferred whose callbacks call callback()/errback()/cancel() on it while its "
+            "chain runs; theorems reent_one_result, reent_result_never_replaced, reent_records, all histories): such calls never change "
+            "called / the delivered result / the canceller count, every re-entrant cancel() is a no-op and every re-entrant "
+            "callback()/errback() raises AlreadyCalledError, except at most one per operation that is swallowed — and only when an "
+            "ignore was pending or the operation is the canceller-less cancel() itself. Models tied to defer.py by differential runs "
+            "(per-operation outcome + called/result/canceller-count/delivered of every Deferred + the records of the re-entrant "
+            "callbacks) incl. exhaustive short histories; Deferred subclasses, the four forms of handing over a failure and debugging "
+            "switched mid-history are run against the same model lines (they must make no observable difference). Chains deeper than "
+            "one and re-entrant callbacks next to inner Deferreds are checked by the oracle only.",
     "note": "partial for the code as it is (hypothesis: the cancelled Deferred's canceller does not raise); trusts Lean kernel, "
-            "the hand model of Deferred.cancel/_startRunCallbacks/the chaining part of _runCallbacks (differentially tied)",
+            "the hand models of Deferred.cancel/_startRunCallbacks/the chaining part of _runCallbacks and of the callback loop with "
+            "re-entrant callbacks (differentially tied); nested chains are outside both models (oracle-only cases)",
     "technique": "Lean 4 proof (invariant over histories + refinement of the protocol automaton) + differential tie",
     "design_ref": "DESIGN.md §7 C03",
 }
@@ -58,8 +80,73 @@ class CancellerBoom(Exception):
     pass
 
 
+class SubDeferred(Deferred):
+    """a Deferred subclass (what DeferredList, application subclasses … are to the code under test)"""
+
+
 # ------------------------------------------------------------------------------------------
-# cases: {"spec": <outer canceller>, "ops": [<op token>, …]}  (tokens = the driver protocol)
+# cases: {"spec": <outer canceller>, "ops": [<op token>, …], "dbg": bool?, "sub": 0..3?}
+#
+# op tokens (the first block is the Lean driver's protocol; the rest is mapped away or oracle-only):
+#   cb<v> eb<k> x ac:<spec> ab:<spec> fi<i>:v<n> fi<i>:e<n> xi<i>
+#   ef<k>  outer.errback(Failure(UserError(k)))        fi<i>:f<k>  the same on inner i
+#   en<k>  outer.errback() inside `except UserError`     fi<i>:n<k>
+#   cf<k>  outer.callback(Failure(UserError(k)))        fi<i>:c<k>
+#   D+ D-  defer.setDebugging(True / False) in the middle of the history
+#   ic<i>:<spec> ib<i>:<spec>   inner_i.addCallback / addBoth(lambda _: <new inner Deferred>)     (nested; oracle-only)
+#   ro:<act> ri<i>:<act>        outer / inner_i .addBoth(callback that performs <act> = cb<v> | eb<k> | x on the
+#                               Deferred it is attached to, records what happened, returns its argument) (re-entrant; oracle-only)
+# "sub": 0 plain Deferreds, 1 every Deferred is a SubDeferred, 2 only the inner ones, 3 only the outer one.
+
+_OP = re.compile(r"^(?:(?P<x>x)|xi(?P<xi>\d+)|(?P<of>cb|eb|ef|en|cf)(?P<ofn>\d+)|fi(?P<fi>\d+):(?P<fif>[vefnc])(?P<fin>\d+)"
+                 r"|a(?P<ab>[cb]):(?P<aspec>\w+)|i(?P<ib>[cb])(?P<ii>\d+):(?P<ispec>\w+)"
+                 r"|ro:(?P<roact>cb\d+|eb\d+|x)|ri(?P<ri>\d+):(?P<riact>cb\d+|eb\d+|x)|D(?P<dbg>[+-]))$")
+_OUTER_FORM = {"cb": "v", "eb": "e", "ef": "f", "en": "n", "cf": "c"}
+
+
+def _parse_op(op):
+    """→ dict(kind=fire|cancel|add|reent|dbg, …); the target/owner Deferred is a cell index (0 = outer, 1+i = inner i)"""
+    m = _OP.match(op)
+    if not m:
+        raise ValueError("bad op " + op)
+    g = m.groupdict()
+    if g["x"]:
+        return {"kind": "cancel", "target": 0}
+    if g["xi"] is not None:
+        return {"kind": "cancel", "target": 1 + int(g["xi"])}
+    if g["of"]:
+        return {"kind": "fire", "target": 0, "form": _OUTER_FORM[g["of"]], "n": int(g["ofn"])}
+    if g["fi"] is not None:
+        return {"kind": "fire", "target": 1 + int(g["fi"]), "form": g["fif"], "n": int(g["fin"])}
+    if g["ab"]:
+        return {"kind": "add", "on": 0, "both": g["ab"] == "b", "spec": g["aspec"]}
+    if g["ib"]:
+        return {"kind": "add", "on": 1 + int(g["ii"]), "both": g["ib"] == "b", "spec": g["ispec"]}
+    if g["roact"]:
+        return {"kind": "reent", "on": 0, "act": g["roact"]}
+    if g["ri"] is not None:
+        return {"kind": "reent", "on": 1 + int(g["ri"]), "act": g["riact"]}
+    return {"kind": "dbg", "on": g["dbg"] == "+"}
+
+
+def _features(c):
+    f = set()
+    if c.get("sub"):
+        f.add("sub")
+    if c.get("dbg"):
+        f.add("dbg")
+    for op in c["ops"]:
+        p = _parse_op(op)
+        if p["kind"] == "fire" and p["form"] in "fnc":
+            f.add("forms")
+        elif p["kind"] == "dbg":
+            f.add("toggle")
+        elif p["kind"] == "add" and p["on"] != 0:
+            f.add("nested")
+        elif p["kind"] == "reent":
+            f.add("reent")
+    return f
+
 
 def corpus():
     return [
@@ -83,6 +170,15 @@ def corpus():
         {"spec": "n", "ops": ["x", "ab:z", "cb1", "x", "cb2", "fi0:v1"]},
         {"spec": "n", "ops": ["cb1", "ac:n", "xi0", "ac:n", "fi0:v1", "fi1:e1", "ab:n", "x"]},
         {"spec": "n", "ops": []},
+        # white-box mutation audit (harness/mutants/C03): one witness per former blind spot
+        {"spec": "n", "ops": ["x", "en2", "cb1"]},                              # m02: late errback() in an except block is the ignored one
+        {"spec": "n", "ops": ["x", "cf2", "ef3"]},
+        {"spec": "n", "ops": ["cb1", "ac:z", "x", "fi0:v2"], "sub": 2},         # m03: the Deferred waited on is a subclass instance
+        {"spec": "z", "ops": ["ac:n", "ic0:z", "fi0:v1", "cb2", "x", "x"]},     # m04: cancel forwarded through two fired-and-waiting Deferreds
+        {"spec": "n", "ops": ["ro:cb9", "ro:x", "cb1", "cb2"]},                 # m05: a callback fires / cancels its own Deferred
+        {"spec": "z", "ops": ["ro:x", "ro:eb9", "x"]},
+        {"spec": "n", "ops": ["cb1", "D+", "cb2", "D-", "cb3"]},                # m12: fired with debugging off, refused with debugging on
+        {"spec": "n", "ops": ["D+", "x", "D-", "cb1", "D+", "cb2"]},
     ]
 
 
@@ -109,16 +205,95 @@ def _enumerate(depth, reduced):
     yield from rec([])
 
 
-def _random_history(rng, maxlen):
+def _n_inners(prefix):
+    return sum(1 for o in prefix if o[0] in "ai" and o[1] in "cb" and ":" in o)
+
+
+def _enum(depth, alphabet, need=None):
+    """every history of exactly `depth` ops with `alphabet(prefix, number of inner Deferreds so far)` as the next tokens;
+    `need`: keep only histories in which some op satisfies it (the others belong to another slice)"""
+    def rec(prefix):
+        if len(prefix) == depth:
+            if need is None or any(need(o) for o in prefix):
+                yield list(prefix)
+            return
+        for t in alphabet(prefix, _n_inners(prefix)):
+            prefix.append(t)
+            yield from rec(prefix)
+            prefix.pop()
+    yield from rec([])
+
+
+def _alpha_forms(prefix, n):
+    nxt = ["x", "cb1", "ef2", "en3", "cf4", "ac:n"]
+    if n:
+        nxt += [f"fi{n - 1}:f5", f"fi{n - 1}:n6", f"fi{n - 1}:c7"]
+    return nxt
+
+
+def _alpha_toggle(prefix, n):
+    nxt = ["x", "cb1", "eb2", "ac:n", "D+", "D-"]
+    if n:
+        nxt += [f"fi{n - 1}:v4"]
+    return nxt
+
+
+def _alpha_nested_bare(prefix, n):
+    nxt = ["cb1", "x"]
+    nxt += ["ac:n"] if not any(o.startswith("ac") for o in prefix) else []
+    if n:
+        nxt += [f"ic{n - 1}:n"]
+        nxt += [f"fi{i}:v4" for i in range(n)]
+    return nxt
+
+
+def _alpha_nested_full(prefix, n):
+    nxt = ["cb1", "eb2", "x", "ab:n"] + ["ac:" + s for s in ("n", "z", "o7")]
+    for i in range(n):
+        nxt += [f"ic{i}:n", f"ic{i}:z", f"ic{i}:e3", f"ic{i}:r", f"ib{i}:n", f"fi{i}:v4", f"fi{i}:e5", f"xi{i}"]
+    return nxt
+
+
+def _alpha_reent(prefix, n):
+    nxt = ["cb1", "eb2", "x", "ac:n", "ro:cb9", "ro:eb9", "ro:x"]
+    if n:
+        nxt += [f"fi{n - 1}:v4", f"xi{n - 1}", f"ri{n - 1}:cb9", f"ri{n - 1}:x"]
+    return nxt
+
+
+def _is_form(o):
+    return o[:2] in ("ef", "en", "cf") or (o.startswith("fi") and o.split(":")[1][0] in "fnc")
+
+
+def _random_history(rng, maxlen, feats=()):
+    """feats ⊆ {forms, toggle, nested, reent}: which extensions of the case language the history may use"""
     n = rng.choice([1, 2, 3, 4, 5, 6, 8, 8, 12, 20, maxlen])
     ops, inner = [], 0
     style = rng.random()
+
+    def form(isinner):
+        if "forms" in feats and rng.random() < 0.6:
+            return rng.choice("fnc") if isinner else rng.choice(["ef", "en", "cf"])
+        return "e" if isinner else "eb"
+
     for _ in range(n):
         r = rng.random()
+        if "toggle" in feats and rng.random() < 0.15:
+            ops.append(rng.choice(["D+", "D-"]))
+            continue
+        if "reent" in feats and rng.random() < 0.15:
+            act = rng.choice([f"cb{rng.randint(0, 9)}", f"eb{rng.randint(0, 9)}", "x"])
+            ops.append(f"ri{rng.randrange(inner)}:{act}" if inner and rng.random() < 0.5 else f"ro:{act}")
+            continue
+        if "nested" in feats and inner and rng.random() < 0.2:
+            i = rng.randrange(inner) if rng.random() < 0.5 else inner - 1
+            ops.append(("ib" if rng.random() < 0.3 else "ic") + f"{i}:" + rng.choice(SPECS + ["n", "z"]))
+            inner += 1
+            continue
         if inner and r < (0.45 if style < 0.5 else 0.25):
             i = rng.randrange(inner) if rng.random() < 0.5 else inner - 1
             k = rng.random()
-            ops.append(f"xi{i}" if k < 0.2 else (f"fi{i}:v{rng.randint(0, 9)}" if k < 0.7 else f"fi{i}:e{rng.randint(0, 9)}"))
+            ops.append(f"xi{i}" if k < 0.2 else (f"fi{i}:v{rng.randint(0, 9)}" if k < 0.7 else f"fi{i}:{form(True)}{rng.randint(0, 9)}"))
         elif r < 0.6:
             ops.append(("ab:" if rng.random() < 0.3 else "ac:") + rng.choice(SPECS + ["n", "z"]))
             inner += 1
@@ -127,23 +302,24 @@ def _random_history(rng, maxlen):
         elif r < 0.93:
             ops.append(f"cb{rng.randint(0, 9)}")
         else:
-            ops.append(f"eb{rng.randint(0, 9)}")
+            ops.append(f"{form(False)}{rng.randint(0, 9)}")
     return ops
 
 
 def generate(rng, tier):
+    quick = tier == "quick"
     # bounded-exhaustive slice (the statement's own quantifier), on both sides
-    full_depth = 3 if tier == "quick" else 4
+    full_depth = 3 if quick else 4
     for spec in SPECS:
         for d in range(1, full_depth + 1):
             for ops in _enumerate(d, reduced=False):
                 yield {"spec": spec, "ops": ops}
-    red_depth = 5 if tier == "quick" else 7
+    red_depth = 5 if quick else 7
     for spec in SPECS:
         for d in range(full_depth + 1, red_depth + 1):
             for ops in _enumerate(d, reduced=True):
                 yield {"spec": spec, "ops": ops}
-    if tier != "quick":       # the statement's "length <= 8", for the canceller-less Deferred
+    if not quick:       # the statement's "length <= 8", for the canceller-less Deferred
         for ops in _enumerate(8, reduced=True):
             yield {"spec": "n", "ops": ops}
     # the same bounded-exhaustive slice (shallower) with Deferred debugging switched on
@@ -151,17 +327,100 @@ def generate(rng, tier):
         for d in range(1, full_depth):
             for ops in _enumerate(d, reduced=False):
                 yield {"spec": spec, "ops": ops, "dbg": True}
-    n = 1500 if tier == "quick" else 40000
+
+    # --- slices added by the white-box mutation audit (harness/mutants/C03/README.md) ---
+    # (sub) Deferred subclass instances: every bare history, every canceller kind, each placement of the subclass
+    for spec in SPECS:
+        for sub in (2, 1, 3):
+            for d in range(1, (4 if quick else 5) + 1):
+                if d > 3 and (sub != 2 or (quick and spec not in ("n", "z"))):
+                    continue
+                for ops in _enumerate(d, reduced=True):
+                    yield {"spec": spec, "ops": ops, "sub": sub}
+            for d in range(1, (2 if quick else 3) + 1):
+                for ops in _enumerate(d, reduced=False):
+                    yield {"spec": spec, "ops": ops, "sub": sub}
+    # (forms) every way of handing over a failure, first / late / second-late, on the outer and on an inner Deferred
+    for spec in SPECS:
+        for d in range(1, (3 if quick or spec not in ("n", "z") else 4) + 1):
+            for ops in _enum(d, _alpha_forms, need=_is_form):
+                yield {"spec": spec, "ops": ops}
+    # (D+/D-) debugging switched on / off in the middle of the history, starting in either mode
+    for spec in SPECS:
+        for d in range(1, (4 if spec == "n" else 3) + (0 if quick else 1) + 1):
+            for ops in _enum(d, _alpha_toggle, need=lambda o: o[0] == "D"):
+                for dbg in (False, True):
+                    if ops[0] == ("D+" if dbg else "D-"):
+                        continue        # a no-op toggle first: the same history starts in the other slice
+                    yield {"spec": spec, "ops": ops, "dbg": dbg}
+    # (nested) chains deeper than one: inner Deferreds with callbacks that return further Deferreds (oracle-only)
+    for spec in ("n", "z"):
+        for d in range(2, (6 if quick else 7) - (1 if spec == "z" else 0) + 1):
+            for ops in _enum(d, _alpha_nested_bare, need=lambda o: o.startswith("ic")):
+                yield {"spec": spec, "ops": ops}
+    for spec in SPECS:
+        for d in range(2, (3 if quick else 4) + 1):
+            for ops in _enum(d, _alpha_nested_full, need=lambda o: o[0] == "i"):
+                yield {"spec": spec, "ops": ops}
+    # (re-entrant) callbacks that fire / cancel the Deferred whose chain is running (oracle-only)
+    for spec in SPECS:
+        for d in range(1, (3 if quick else 4) + 1):
+            for ops in _enum(d, _alpha_reent, need=lambda o: o[0] == "r"):
+                yield {"spec": spec, "ops": ops}
+                if d <= 2:
+                    yield {"spec": spec, "ops": ops, "dbg": True}
+
+    n = 1500 if quick else 40000
     for i in range(n):
+        # i % 8: 0-3 the original language; 4 forms+toggle; 5 forms+sub (all model-compared); 6 nested; 7 re-entrant (+ nested)
+        k = i % 8
+        feats = {4: ("forms", "toggle"), 5: ("forms",), 6: ("nested", "forms"), 7: ("reent", "nested", "toggle")}.get(k, ())
         c = {"spec": rng.choice(SPECS + [f"o{rng.randint(0, 9)}", f"e{rng.randint(0, 9)}"]),
-             "ops": _random_history(rng, 40)}
+             "ops": _random_history(rng, 40, feats)}
         if i % 4 == 2:
             c["dbg"] = True
+        if k in (1, 5) or (k >= 6 and rng.random() < 0.3):
+            c["sub"] = rng.choice([1, 2, 2, 3])
         yield c
 
 
+_FORM_TO_MODEL = {"v": "v", "e": "e", "f": "e", "n": "e", "c": "e"}
+
+
 def model_line(c):
-    return " ".join([MODE, c["spec"]] + list(c["ops"]))
+    """the history in the Lean driver's language, or None when it uses callbacks no model has.
+    The form of a failure hand-over, the class of the Deferreds and the debugging mode are abstracted by the
+    models (see ASSUMES): forms are mapped to `errback`, D+/D- are dropped (run_impl prints no step for them).
+    Histories with re-entrant callbacks on the outer Deferred and NO inner Deferred go to the single-Deferred
+    re-entrancy model (driver mode `reent`, TwistedModel/Defer/Reenter.lean); re-entrant callbacks together with
+    inner Deferreds, and nested chains, are oracle-only."""
+    toks = []
+    reent = False
+    inners = False
+    for op in c["ops"]:
+        p = _parse_op(op)
+        if p["kind"] == "dbg":
+            continue
+        if p["kind"] == "add" and p["on"] != 0:
+            return None
+        if p["kind"] == "reent":
+            if p["on"] != 0:
+                return None
+            reent = True
+            toks.append(op)
+        elif p["kind"] == "fire":
+            f = _FORM_TO_MODEL[p["form"]]
+            if p["target"] == 0:
+                toks.append(("cb" if f == "v" else "eb") + str(p["n"]))
+            else:
+                inners = True
+                toks.append(f"fi{p['target'] - 1}:{f}{p['n']}")
+        else:
+            inners = inners or p["kind"] == "add" or p.get("target", 0) != 0
+            toks.append(op)
+    if reent and inners:
+        return None
+    return " ".join(["reent" if reent else MODE, c["spec"]] + toks)
 
 
 # ------------------------------------------------------------------------------------------
@@ -170,11 +429,11 @@ def model_line(c):
 class _Cell:
     """a real Deferred + observation: canceller call count, results delivered to its first callback"""
 
-    def __init__(self, spec):
+    def __init__(self, spec, cls=Deferred):
         self.spec = spec
         self.calls = 0
         self.delivered = []
-        self.d = Deferred(self._canceller if spec != "n" else None)
+        self.d = cls(self._canceller if spec != "n" else None)
         self.d.addBoth(self._probe)
 
     def _probe(self, r):
@@ -234,44 +493,82 @@ def run_impl(c):
         defer.setDebugging(dbg)
 
 
+def _fire(d, form, n):
+    if form == "v":
+        d.callback(n)
+    elif form == "e":
+        d.errback(UserError(n))
+    elif form == "f":
+        d.errback(Failure(UserError(n)))
+    elif form == "c":
+        d.callback(Failure(UserError(n)))
+    elif form == "n":
+        try:
+            raise UserError(n)
+        except UserError:
+            d.errback()
+    else:
+        raise ValueError("bad form " + form)
+
+
+def _fingerprint(cells, me):
+    return ([(bool(c.d.called), c.calls, len(c.delivered)) for c in cells], id(getattr(me.d, "result", _NO)))
+
+
+def _reentrant(cells, me, idx, act, records):
+    """a callback for `me.d` that performs `act` on me.d itself while me.d's callback chain is running"""
+    def cb(r):
+        before = _fingerprint(cells, me)
+        try:
+            if act == "x":
+                me.d.cancel()
+            else:
+                _fire(me.d, "v" if act.startswith("cb") else "e", int(act[2:]))
+            o = "ok"
+        except AlreadyCalledError:
+            o = "A"
+        except CancellerBoom:
+            o = "B"
+        records.append(f"{idx}/{act}/{o}/{'s' if _fingerprint(cells, me) == before else 'c'}")
+        return r
+    return cb
+
+
 def _run_impl(c):
-    cells = [_Cell(c["spec"])]
-    outer = cells[0]
+    sub = c.get("sub", 0)
+    cells = [_Cell(c["spec"], SubDeferred if sub in (1, 3) else Deferred)]
+    inner_cls = SubDeferred if sub in (1, 2) else Deferred
     toks = []
+    records = []
     try:
         for op in c["ops"]:
+            p = _parse_op(op)
+            if p["kind"] == "dbg":
+                defer.setDebugging(p["on"])      # no step printed: not an operation on a Deferred
+                continue
             try:
-                if op == "x":
-                    outer.d.cancel()
-                elif op.startswith("cb"):
-                    outer.d.callback(int(op[2:]))
-                elif op.startswith("eb"):
-                    outer.d.errback(UserError(int(op[2:])))
-                elif op.startswith("ac:") or op.startswith("ab:"):
-                    inner = _Cell(op[3:])
+                if p["kind"] == "cancel":
+                    cells[p["target"]].d.cancel()
+                elif p["kind"] == "fire":
+                    _fire(cells[p["target"]].d, p["form"], p["n"])
+                elif p["kind"] == "add":
+                    inner = _Cell(p["spec"], inner_cls)
                     cells.append(inner)
                     f = (lambda _r, _d=inner.d: _d)
-                    if op.startswith("ab:"):
-                        outer.d.addBoth(f)
+                    if p["both"]:
+                        cells[p["on"]].d.addBoth(f)
                     else:
-                        outer.d.addCallback(f)
-                elif op.startswith("xi"):
-                    cells[1 + int(op[2:])].d.cancel()
-                elif op.startswith("fi"):
-                    i, r = op[2:].split(":")
-                    d = cells[1 + int(i)].d
-                    if r[0] == "v":
-                        d.callback(int(r[1:]))
-                    else:
-                        d.errback(UserError(int(r[1:])))
+                        cells[p["on"]].d.addCallback(f)
                 else:
-                    raise ValueError("bad op " + op)
+                    me = cells[p["on"]]
+                    me.d.addBoth(_reentrant(cells, me, p["on"], p["act"], records))
                 o = "ok"
             except AlreadyCalledError:
                 o = "A"
             except CancellerBoom:
                 o = "B"
-            toks.append(o + "|" + _snap(cells))
+            toks.append(o + "|" + _snap(cells) + ("|" + ",".join(records) if records else ""))
+            del records[:]
     finally:
         for cell in cells:  # no "Unhandled error in Deferred" noise at garbage collection
             cell.d.addErrback(lambda f: None)
@@ -293,12 +590,20 @@ def _parse_cell(t):
 
 
 def _parse(out):
+    """→ [(outcome, [cell, …], [(cell index, act, outcome, unchanged?), …])] — one entry per operation (D+/D- print none)"""
     steps = []
     if out == "-":
         return steps
     for tok in out.split(" "):
-        o, snap = tok.split("|")
-        steps.append((o, [_parse_cell(t) for t in snap.split(";")]))
+        parts = tok.split("|")
+        if len(parts) not in (2, 3):
+            raise ValueError("bad step " + tok)
+        recs = []
+        if len(parts) == 3:
+            for r in parts[2].split(","):
+                t, act, o, same = r.split("/")
+                recs.append((int(t), act, o, same == "s"))
+        steps.append((parts[0], [_parse_cell(t) for t in parts[1].split(";")], recs))
     return steps
 
 
@@ -311,67 +616,119 @@ def _expected_cancel_delivery(spec):
     return "X"           # absent, returns, raises: errbacked with CancelledError
 
 
+_FRESH = {"called": False, "calls": 0, "result": "-", "delivered": []}
+_DREF = re.compile(r"^d(\d+)$")
+
+
+def _resolve(pre, target):
+    """the Deferred a cancel() addressed to `target` ends up at: while it is fired and waiting on another
+    Deferred (its result IS that Deferred), "cancels that Deferred" — applied again to that one.
+    → (the fired-and-waiting Deferreds passed through, the final one)"""
+    path, t = [], target
+    while pre[t]["called"] and _DREF.match(pre[t]["result"]) and t not in path:
+        path.append(t)
+        t = 1 + int(pre[t]["result"][1:])
+        if t >= len(pre):
+            raise ValueError("waiting on an unknown Deferred")
+    return path, t
+
+
 def _violations(c, out):
     if out.startswith("!raised"):
         yield {"key": "unexpected-exception", "detail": out}
         return
     try:
         steps = _parse(out)
+        ops = [(op, _parse_op(op)) for op in c["ops"]]
     except Exception as e:  # unparsable observable = something unforeseen happened
         yield {"key": "unparsable", "detail": f"{out!r}: {e}"}
         return
+    ops = [(op, p) for op, p in ops if p["kind"] != "dbg"]      # switching debugging prints no step; any effect it
+    #                                                             had shows as a change at the next operation
     specs = [c["spec"]]
-    cells = [{"called": False, "calls": 0, "result": "-", "delivered": []}]
+    cells = [dict(_FRESH)]
     pending_ignore = [False]      # the statement's "exactly one later callback or errback is silently ignored"
-    for n, (op, (o, post)) in enumerate(zip(c["ops"], steps)):
-        where = f"op #{n} {op!r} of spec={c['spec']} ops={' '.join(c['ops'])}"
+    for n, ((op, p), (o, post, recs)) in enumerate(zip(ops, steps)):
+        where = f"op #{n} {op!r} of spec={c['spec']} ops={' '.join(c['ops'])}" + (" dbg" if c.get("dbg") else "") \
+            + (f" sub={c['sub']}" if c.get("sub") else "")
         pre = cells
-        if op.startswith("a"):
-            specs.append(op[3:])
+        if p["kind"] == "add":
+            specs.append(p["spec"])
             pending_ignore.append(False)
-            pre = pre + [{"called": False, "calls": 0, "result": "-", "delivered": []}]
+            pre = pre + [dict(_FRESH)]
+        if len(post) != len(pre):
+            yield {"key": "unparsable", "detail": f"{len(post)} Deferreds in the snapshot, expected {len(pre)} at {where}"}
+            return
         # global: one result per Deferred, ever
         for j, cell in enumerate(post):
             if len(cell["delivered"]) > 1:
                 yield {"key": "two-results", "detail": f"Deferred {j} was given {cell['delivered']} after {where}"}
-            if j < len(pre) and pre[j]["delivered"] and cell["delivered"] != pre[j]["delivered"]:
+            if pre[j]["delivered"] and cell["delivered"] != pre[j]["delivered"]:
                 yield {"key": "result-replaced", "detail": f"Deferred {j}: {pre[j]['delivered']} -> {cell['delivered']} at {where}"}
-            if j < len(pre) and cell["calls"] < pre[j]["calls"]:
+            if cell["calls"] < pre[j]["calls"]:
                 yield {"key": "unparsable", "detail": "call count decreased"}
+            if pre[j]["called"] and not cell["called"]:
+                yield {"key": "result-replaced", "detail": f"Deferred {j} is unfired again at {where}"}
         # which Deferred does the operation address?
-        target = None
-        if op.startswith("cb") or op.startswith("eb"):
-            target, kind = 0, "fire"
-        elif op.startswith("fi"):
-            target, kind = 1 + int(op[2:].split(":")[0]), "fire"
-        elif op.startswith("xi"):
-            target, kind = 1 + int(op[2:]), "cancel"
-        elif op == "x":
-            target, kind = 0, "cancel"
-            if pre[0]["called"] and pre[0]["result"].startswith("d") and pre[0]["result"][1:].isdigit():
-                # fired and waiting on another Deferred: "cancels that Deferred"
-                target = 1 + int(pre[0]["result"][1:])
-                if post[0]["calls"] != pre[0]["calls"]:
-                    yield {"key": "chained-cancel-called-own-canceller", "detail": where}
-        if target is None:
+        kind = p["kind"]
+        target = p.get("target")
+        path = []
+        if kind == "cancel":
+            try:
+                path, target = _resolve(pre, target)
+            except ValueError as e:
+                yield {"key": "unparsable", "detail": f"{e} at {where}"}
+                return
+            # fired and waiting on another Deferred: "cancels that Deferred" — not itself
+            for j in path:
+                if post[j]["calls"] != pre[j]["calls"]:
+                    yield {"key": "chained-cancel-called-own-canceller", "detail": f"Deferred {j} at {where}"}
+        # the Deferred whose cancel() (canceller-less, unfired) is in progress: a re-entrant callback()/errback() on it
+        # from one of its own callbacks may or may not count as the "later" result that is ignored (see ASSUMES)
+        amb = target if kind == "cancel" and not pre[target]["called"] and specs[target] == "n" else None
+        amb_consumed = False
+        # operations performed by callbacks on the Deferred whose chain is running: it HAS its result, so a further
+        # callback/errback raises AlreadyCalledError (or is the one ignored), cancel() has no effect; nothing changes
+        for (t, act, ro, same) in recs:
+            rwhere = f"re-entrant {act} on Deferred {t} during {where}"
+            if not same:
+                yield {"key": "reentrant-op-changed-state", "detail": f"outcome {ro}, {rwhere}"}
+            if act == "x":
+                if ro != "ok":
+                    yield {"key": "reentrant-cancel-on-fired-had-effect", "detail": f"outcome {ro}, {rwhere}"}
+            elif pending_ignore[t]:
+                pending_ignore[t] = False
+                if ro != "ok":
+                    yield {"key": "late-result-after-cancel-not-ignored", "detail": f"outcome {ro}, {rwhere}"}
+            elif t == amb and not amb_consumed and ro == "ok":
+                amb_consumed = True
+            elif ro != "A":
+                yield {"key": "second-result-accepted", "detail": f"outcome {ro} (expected AlreadyCalledError), {rwhere}"}
+        if kind in ("add", "reent"):
             if o != "ok":
                 yield {"key": "add-raised", "detail": where}
+            # adding a callback gives no Deferred a result and cancels none
+            for j in range(len(post)):
+                if any(post[j][f] != pre[j][f] for f in ("called", "calls", "delivered")):
+                    yield {"key": "add-fired-or-cancelled", "detail": f"Deferred {j}: {pre[j]} -> {post[j]} at {where}"}
         elif kind == "fire":
             if not pre[target]["called"]:
                 # the one callback/errback a Deferred accepts
-                want = op[2:] if target == 0 else op.split(":")[1]
-                want = ("v" if op.startswith("cb") else "e") + want if target == 0 else want
+                want = ("v" if p["form"] == "v" else "e") + str(p["n"])
                 if o != "ok" or not post[target]["called"] or post[target]["delivered"] != [want]:
                     yield {"key": "first-result-not-accepted",
                             "detail": f"outcome {o}, delivered {post[target]['delivered']} at {where}"}
+                for j in range(len(post)):
+                    if j != target and any(post[j][f] != pre[j][f] for f in ("called", "calls", "delivered")):
+                        yield {"key": "fire-touched-unrelated", "detail": f"Deferred {j}: {pre[j]} -> {post[j]} at {where}"}
             elif pending_ignore[target]:
                 pending_ignore[target] = False
-                if o != "ok" or post != pre:
+                if o != "ok" or post != pre or recs:
                     yield {"key": "late-result-after-cancel-not-ignored", "detail": f"outcome {o}; {pre} -> {post} at {where}"}
             else:
                 if o != "A":
                     yield {"key": "second-result-accepted", "detail": f"outcome {o} (expected AlreadyCalledError) at {where}"}
-                if post != pre:
+                if post != pre or recs:
                     yield {"key": "second-result-changed-state", "detail": f"{pre} -> {post} at {where}"}
         else:  # cancel, addressed (directly or by forwarding) to `target`
             if not pre[target]["called"]:
@@ -386,19 +743,22 @@ def _violations(c, out):
                     yield {"key": key,
                             "detail": f"after cancel() Deferred {target} (canceller {spec}) has called={post[target]['called']} "
                                       f"delivered={post[target]['delivered']} (expected [{want}]), outcome {o}, at {where}"}
+                if o == "A":
+                    # "unless the canceller fired it": cancel() tried to give a fired Deferred a second result
+                    yield {"key": "cancel-errbacked-a-fired-deferred", "detail": f"cancel() raised AlreadyCalledError at {where}"}
                 if spec == "n":
-                    pending_ignore[target] = True
-                # no other Deferred is fired or cancelled by this (the outer one may resume and, running its
-                # callbacks, take over the result of an already-fired inner one: `result` is not compared)
+                    pending_ignore[target] = not amb_consumed
+                # no other Deferred is fired or cancelled by this (the ones waiting on it resume and, running their
+                # callbacks, may take over the result of an already-fired one: `result` is not compared)
                 for j in range(len(post)):
-                    if j not in (target, 0) and any(post[j][f] != pre[j][f] for f in ("called", "calls", "delivered")):
+                    if j != target and any(post[j][f] != pre[j][f] for f in ("called", "calls", "delivered")):
                         yield {"key": "cancel-touched-unrelated", "detail": f"Deferred {j} changed at {where}"}
             else:
                 # fired and not waiting on anything: no effect at all
-                if o != "ok" or post != pre:
+                if o != "ok" or post != pre or recs:
                     yield {"key": "cancel-on-fired-had-effect", "detail": f"outcome {o}; {pre} -> {post} at {where}"}
         cells = post
-    if len(steps) != len(c["ops"]):
+    if len(steps) != len(ops):
         yield {"key": "unparsable", "detail": "missing steps"}
 
 
@@ -423,8 +783,10 @@ def _kind(op):
         return "fi" + op.split(":")[1][0]
     if op.startswith("xi"):
         return "xi"
-    if op[0] == "a":
-        return op[:2] + op[3]
+    if op[0] == "r":
+        return "r" + ("o" if op[1] == "o" else "i") + op.split(":")[1][:2]
+    if op[0] in "ai":
+        return op[:2] + op.split(":")[1][0]
     return op[:2] if op != "x" else "x"
 
 
@@ -436,24 +798,41 @@ def tag(c, out):
         return "unparsable"
     sig = set()
     prev = None
-    for op, (o, post) in zip(c["ops"], steps):
+    for op, (o, post, recs) in zip([op for op in c["ops"] if op[0] != "D"], steps):
         st = ""
         if prev is not None:
             st = ("F" if prev[0]["called"] else "U") + ("w" if prev[0]["result"].startswith("d") else "")
         else:
             st = "U"
-        sig.add(f"{_kind(op)}@{st}:{o}")
+        sig.add(f"{_kind(op)}@{st}:{o}" + "".join(sorted({f"+{a[:2]}{ro}" for (_t, a, ro, _s) in recs})))
         prev = post
-    return c["spec"][0] + "|" + ",".join(sorted(sig))
+    feats = "".join(sorted(f[0] for f in _features(c) if f != "dbg"))
+    return c["spec"][0] + feats + "|" + ",".join(sorted(sig))
+
+
+def _with_flags(c, d):
+    for k in ("dbg", "sub"):
+        if c.get(k):
+            d[k] = c[k]
+    return d
 
 
 def shrink(c):
     for d in _shrink(c):
-        if c.get("dbg"):
-            d["dbg"] = True
-        yield d
-    if c.get("dbg"):
-        yield {"spec": c["spec"], "ops": c["ops"]}
+        yield _with_flags(c, d)
+    for k in ("dbg", "sub"):
+        if c.get(k):
+            d = {kk: v for kk, v in c.items() if kk != k}
+            yield d
+    # simpler forms of the same operation
+    for i, op in enumerate(c["ops"]):
+        p = _parse_op(op)
+        if p["kind"] == "fire" and p["form"] in "fnc":
+            simple = f"eb{p['n']}" if p["target"] == 0 else f"fi{p['target'] - 1}:e{p['n']}"
+            yield _with_flags(c, {"spec": c["spec"], "ops": c["ops"][:i] + [simple] + c["ops"][i + 1:]})
+
+
+_REF = re.compile(r"^(fi|xi|ic|ib|ri)(\d+)(.*)$")
 
 
 def _shrink(c):
@@ -461,21 +840,19 @@ def _shrink(c):
     for i in range(len(ops)):
         cand = ops[:i] + ops[i + 1:]
         # keep inner indices meaningful: dropping an add renumbers later inners
-        if ops[i].startswith("a"):
-            k = sum(1 for o in ops[:i] if o.startswith("a"))
+        if _parse_op(ops[i])["kind"] == "add":
+            k = _n_inners(ops[:i])
             new, ok = [], True
             for o in cand:
-                if o.startswith("fi") or o.startswith("xi"):
-                    head = o[:2]
-                    rest = o[2:]
-                    idx = int(rest.split(":")[0])
-                    tail = rest[len(str(idx)):]
+                m = _REF.match(o)
+                if m:
+                    idx = int(m.group(2))
                     if idx == k:
                         ok = False
                         break
                     if idx > k:
                         idx -= 1
-                    new.append(f"{head}{idx}{tail}")
+                    new.append(f"{m.group(1)}{idx}{m.group(3)}")
                 else:
                     new.append(o)
             if not ok:
@@ -491,9 +868,9 @@ def search(rng, tier, disagreeing):
     plus every prefix/extension of the disagreeing cases."""
     for c in disagreeing[:50]:
         for k in range(len(c["ops"]) + 1):
-            yield {"spec": c["spec"], "ops": c["ops"][:k]}
+            yield _with_flags(c, {"spec": c["spec"], "ops": c["ops"][:k]})
             for t in ("x", "cb1", "x cb1 cb2".split()):
-                yield {"spec": c["spec"], "ops": c["ops"][:k] + (t if isinstance(t, list) else [t])}
+                yield _with_flags(c, {"spec": c["spec"], "ops": c["ops"][:k] + (t if isinstance(t, list) else [t])})
     depth = 4 if tier == "quick" else 5
     for spec in SPECS:
         for d in range(1, depth + 1):
